@@ -339,7 +339,10 @@ def lzip_subjects(rng, quick, n):
 def block_index_subjects(rng, quick, n):
     S = []
     for i in range(n):
-        desc, want, f, fmap = small_random_xz(rng, 3000)
+        for _ in range(20):
+            desc, want, f, fmap = small_random_xz(rng, 3000)
+            if any(s.get('blocks') for s in desc):
+                break
         fm = {nm: (o, l) for nm, o, l in fmap}
         for si, s in enumerate(desc):
             for bi, blk in enumerate(s.get('blocks') or []):
